@@ -42,6 +42,11 @@ CHECKS = {
   "Every received datagram equals one accepted by send(), at most once; send() agrees with the reference admission model (TooLarge/Blocked/Ok, buffer space arithmetic); a non-reading receiver on a FIFO path holds a suffix of the arrival order; wire DATAGRAM payloads within the peer limit.",
   "arrival order taken from decoded DATAGRAM frames on the plaintext lane",
   "DESIGN.md section 4 C16"),
+ "C08": ("fault_enumeration",
+  "runtime monitoring: trace oracles over close/vanish/idle endings injected after every prefix of a scripted exchange, virtual time, both crypto lanes",
+  "For exchange prefixes {0..300 steps} x endings {close by client / server / both, either peer vanishing, both idle} x idle-timeout/keep-alive matrix x window-limited closers: ConnectionLost at most once (and not after a reported loss), first transmit after close() carries CONNECTION_CLOSE, only the Close timer remains and drain happens within 3 PTO, exactly one Drained event after which the endpoint forgets the connection (open_connections, routing, silence), the peer learns the closer's exact code/reason over a delivering path, TimedOut within [last rx + idle, last restart + max(idle, 3 PTO)], no TimedOut with keep-alives.",
+  "negotiated idle timeout recomputed from both configurations; lateness of the simulated driver added to upper bounds; amplification-limited closers and zombie connections born from duplicated Initials are excused; Reset reported after a local close is a recorded known finding (required by the repository's own test)",
+  "DESIGN.md section 4 C08"),
 }
 NOT_YET = "check not built yet (work in progress; see DESIGN.md section 4)"
 
